@@ -197,6 +197,10 @@ class World:
                 rows = [ROWS.index(r) for r in o.index]          # a sub-container may hold some of the rows
                 if o.shape != (len(rows), n) or len(o._blocks._index) != n or not rows:
                     broken.append('labels_and_data_out_of_step')
+                # per-column dtypes are data too: one dtype per label, read through the public attribute and through equals
+                dts = o.dtypes
+                if list(dts.index) != [NAMES[l] for l in labels] or any(d != np.dtype(np.int64) for d in dts.values) or not o.equals(o.iloc[:, :], compare_dtype=True):
+                    broken.append('dtypes_out_of_step')
                 for pos, l in enumerate(labels):
                     want = [payload(l).tolist()[r] for r in rows]
                     if o[NAMES[l]].values.tolist() != want or o.iloc[:, pos].values.tolist() != want:
